@@ -273,6 +273,44 @@ fn unknown_compression(ctx: &mut Ctx, case: u64) {
             ctx.case(hash_u64s(&[crate::rng::hash_bytes(&f.bytes), 2]), true);
         }
     }
+    // an archive whose sections are all empty still declares a compression nobody can decode
+    {
+        let mut h = R::RHeader::default();
+        h.internal_compression = 0;
+        h.root_offset = 127;
+        h.root_length = 0;
+        let bytes = R::header_pack(&h).to_vec();
+        for extra in [0usize, 1, 64] {
+            let mut b = bytes.clone();
+            b.extend(std::iter::repeat(0u8).take(extra));
+            let mat = json!({"archive": "header only, all section lengths 0, internal compression unknown", "trailing_bytes": extra});
+            match guard(|| PMTiles::from_bytes(b.clone()).map(|p| p.num_tiles())) {
+                Ok(Err(_)) => ctx.count("unknown_compression_refused_on_open"),
+                Ok(Ok(_)) => ctx.violation("PMTiles::from_bytes", "accepts-unknown-compression", "opening with unknown internal compression succeeds (empty sections)", "from_bytes returned Ok", mat.clone()),
+                Err(p) => ctx.panic("PMTiles::from_bytes", &p, mat.clone()),
+            }
+            let mut a = AInst::new(b.clone());
+            match guard(|| block_on(PMTiles::from_async_reader(&mut a)).map(|p| p.num_tiles())) {
+                Ok(Err(_)) => ctx.count("unknown_compression_refused_on_open_async"),
+                Ok(Ok(_)) => ctx.violation("PMTiles::from_async_reader", "accepts-unknown-compression", "opening with unknown internal compression succeeds (empty sections)", "async open returned Ok", mat.clone()),
+                Err(p) => ctx.panic("PMTiles::from_async_reader", &p, mat.clone()),
+            }
+        }
+        for len in [0u64, 1] {
+            let data = vec![0u8; len as usize];
+            match guard(|| Directory::from_bytes(&data, Compression::Unknown)) {
+                Ok(Err(_)) => ctx.count("unknown_compression_refused_directory"),
+                Ok(Ok(_)) => ctx.violation("Directory::from_bytes", "accepts-unknown-compression", "directory parsed with unknown compression (empty input)", "Ok", json!({"len": len})),
+                Err(p) => ctx.panic("Directory::from_bytes", &p, json!({"len": len})),
+            }
+            let mut a = AInst::new(data.clone());
+            match guard(|| block_on(Directory::from_async_reader(&mut a, len, Compression::Unknown))) {
+                Ok(Err(_)) => ctx.count("unknown_compression_refused_directory"),
+                Ok(Ok(_)) => ctx.violation("Directory::from_async_reader", "accepts-unknown-compression", "directory parsed with unknown compression (empty input)", "Ok", json!({"len": len})),
+                Err(p) => ctx.panic("Directory::from_async_reader", &p, json!({"len": len})),
+            }
+        }
+    }
     // Directory level
     let list: Vec<REntry> = gen::gen_entries(&mut rng, 5, false, false);
     let d = Directory::from(gen::to_lib_entries(&list));
